@@ -398,3 +398,7 @@ mod tests {
         }
     }
 }
+
+#[cfg(feature = "pendulum_project_ntpd_rs_verif")]
+#[path = "/verif/hooks/ntp-proto/packet_v5_server_reference_id.rs"]
+pub mod verif_hooks;
